@@ -62,9 +62,10 @@ ASSUMPTIONS = [
     "reuse_old_values is only used for the R cache (post_processing is never called, so no old b-vector exists); the "
     "b-vector reuse path is property C17; the R cache is not combined with numeric entries (a cached inexact value of a "
     "congruent pair would blur the cause predicate of F-C16-numeric)",
-    "dimension-wise analytic matrix entries are compared with 1e-8*max|G| (the library's antiderivatives lose digits "
-    "like 1e-16/h^2; intervals down to 2^-8 are generated), uniform ones with 1e-12*max|G|; surpluses 1e-6 resp. 1e-8 "
-    "relative to max|alpha|",
+    "dimension-wise analytic matrix entries are compared with max(1e-12*max|G|, 1e-14/h_min^2) absolute because the "
+    "library's antiderivatives lose digits like 0.4e-16/h_min^2 (reported as an observation, not as a violation); uniform "
+    "ones with 1e-12*max|G|; on non-uniform grids the surplus clause uses the observed R and b once they passed their own "
+    "clause; surplus tolerance 1e-8*max|alpha|",
 ]
 
 LAMBDAS = [0.0, 1e-3, 0.1]
@@ -533,9 +534,9 @@ class _Container(object):
 
 
 KNOWN_UPPER = "upper-boundary-hat-ignores-samples-at-1"
-# proportionality tolerance on non-uniform grids: the matrix entries carry the 1e-16/h^2 rounding described above and the
-# condition number reaches ~1e3 for lambda = 0 (seen 4e-10 relative); a wrong system is off by >= 1e-3
-DW_TOL = 1e-6
+# proportionality tolerance on non-uniform grids (relative to max|alpha|): reference = solve + shift + normalise of the
+# observed system, condition number up to ~1e4 for lambda = 0 on deep trees; a wrong solve/normalisation is off by >= 1e-3
+DW_TOL = 1e-8
 
 
 def _drop_upper(data):
@@ -543,86 +544,100 @@ def _drop_upper(data):
     return np.array([any(c == 1.0 for c in p) for p in data.tolist()], dtype=bool)
 
 
+def min_interval(stripes):
+    return min(float(np.min(np.diff(np.asarray(s, dtype=float)))) for s in stripes)
+
+
 def check_dimwise_grid(out, sub, op, stripes, levels, boundary, lam, lump, numeric, data, classes, info, tag,
                        R=None, B=None, alphas=None):
-    """all clauses for one non-uniform grid; R/B may be None (only surpluses observed)"""
+    """all clauses for one non-uniform grid.
+
+    matrix clause:  R == G + lam I.  Tolerance max(1e-12 * max|G|, 1e-14 / h_min^2) absolute: the library evaluates
+      antiderivatives with terms of size x^3/h^2, so its entries carry a rounding error of ~0.4e-16 / h_min^2 (measured:
+      1.5e-13 at h=2^-6, 2.4e-12 at 2^-8, 6.2e-10 at 2^-12, 9.9e-9 at 2^-14); the bound is 250x above that.
+    rhs clause:     B == b_ref (1e-12 absolute).
+    surplus clause: the surpluses are checked against solve+shift+normalise applied to the *observed* R and B when those
+      passed their own clause (so the 1/h^2 rounding of the matrix does not have to be absorbed by this tolerance), and
+      against the reference G and b_ref otherwise.
+    """
     G = ref_gram(stripes, boundary)
     w = ref_weights(stripes, boundary)
     bref = ref_b(stripes, boundary, data, classes)
     N = len(G)
+    scale = _maxabs(G)
     info["max_N"] = max(info.get("max_N", 0), N)
+    hmin = min_interval(stripes)
+    atol = max(1e-12 * scale, 1e-14 / hmin ** 2)
+    info["max_depth_log2"] = max(info.get("max_depth_log2", 0.0), float(-np.log2(hmin)))
     G_used = G
     if R is not None:
         R = np.asarray(R, dtype=float)
-        if lump:
-            want = np.diag(G) + lam
-            if R.shape != want.shape:
-                out.bad(sub + "/lumped/shape", "%s lumped R has shape %s expected %s" % (tag, R.shape, want.shape))
-            else:
-                dev = _maxabs(R - want)
-                if dev > 1e-12 * _maxabs(G):
-                    if numeric and _maxabs(R - (np.diag(loose_quad_gram(stripes, boundary, True)) + lam)) \
-                            <= 1e-10 * _maxabs(G):
-                        out.bad(sub + "/gram-numeric/entry-is-quadrature-at-epsrel-1",
-                                "%s lumped numeric diagonal deviates from the Gram diagonal by %g (rel %g)"
-                                % (tag, dev, dev / _maxabs(G)))
-                        G_used = np.diag(R - lam)
-                    else:
-                        i = int(np.argmax(np.abs(R - want)))
-                        out.bad(sub + "/lumped/value", "%s lumped R[%d]=%r, Gram diagonal + lambda = %r"
-                                % (tag, i, R[i], want[i]))
-                if np.any(R <= 0):
-                    out.bad(sub + "/lumped/not-positive", "%s min %g" % (tag, np.min(R)))
-        elif numeric:
-            want = G + lam * np.eye(N)
-            dev = _maxabs(R - want) if R.shape == want.shape else float("inf")
-            info["max_numeric_dev_rel"] = max(info.get("max_numeric_dev_rel", 0.0), dev / _maxabs(G))
-            if dev > 1e-9 * _maxabs(G) and R.shape == want.shape and \
-                    _maxabs(R - loose_quad_gram(stripes, boundary) - lam * np.eye(N)) <= 1e-10 * _maxabs(G):
-                D = np.abs(R - want)
-                i, j = np.unravel_index(np.argmax(D), D.shape)
-                out.bad(sub + "/gram-numeric/entry-is-quadrature-at-epsrel-1",
-                        "%s numeric R[%d,%d]=%r but Gram entry %r (max dev %g, rel. to max|G| %g): equals adaptive "
-                        "quadrature of the right integrand stopped at relative tolerance 1" % (tag, i, j, R[i, j], want[i, j],
-                                                                                     dev, dev / _maxabs(G)))
-                if np.array_equal(R, R.T) and np.linalg.eigvalsh(R)[0] > 0:
-                    G_used = R - lam * np.eye(N)
-                else:
-                    out.bad(sub + "/gram-numeric/not-spd", "%s numeric matrix not symmetric positive definite" % tag)
-            else:
-                check_matrix(out, sub, R, G, lam, tag, tol=1e-9, clause="gram-numeric")
+        want = (np.diag(G) + lam) if lump else (G + lam * np.eye(N))
+        if R.shape != want.shape:
+            out.bad(sub + ("/lumped/shape" if lump else "/gram/shape"), "%s R has shape %s expected %s" % (tag, R.shape, want.shape))
         else:
-            # the library's analytic antiderivatives contain terms of size x^3/h^2, so the rounding error of an entry
-            # grows like 1e-16/h^2 (seen 2.3e-11 * max|G| for h = 2^-8, the smallest interval generated);
-            # 1e-8 * max|G| is >= 100x above that and >= 1e5 below a wrong coefficient
-            check_matrix(out, sub, R, G, lam, tag, info=info, tol=1e-8)
+            dev = _maxabs(R - want)
+            key = "max_numeric_dev_rel" if numeric else "max_gram_dev_times_h2"
+            val = dev / scale if numeric else dev * hmin ** 2
+            info[key] = max(info.get(key, 0.0), val)
+            R_dense = np.diag(R) if lump else R
+            spd = np.array_equal(R_dense, R_dense.T) and np.linalg.eigvalsh(R_dense)[0] > 0
+            if numeric and dev > 1e-9 * scale:
+                L = loose_quad_gram(stripes, boundary, diagonal_only=lump)
+                Lw = (np.diag(L) + lam) if lump else (L + lam * np.eye(N))
+                if _maxabs(R - Lw) <= 1e-10 * scale:
+                    i = np.unravel_index(np.argmax(np.abs(R - want)), R.shape)
+                    out.bad(sub + "/gram-numeric/entry-is-quadrature-at-epsrel-1",
+                            "%s numeric R%s=%r but Gram entry %r (max dev %g, rel. to max|G| %g): equals adaptive "
+                            "quadrature of the right integrand stopped at relative tolerance 1"
+                            % (tag, list(i), R[i], want[i], dev, dev / scale))
+                    if spd:
+                        G_used = R_dense - lam * np.eye(N)
+                    else:
+                        out.bad(sub + "/gram-numeric/not-positive-definite", "%s numeric matrix not s.p.d." % tag)
+                elif lump:
+                    i = int(np.argmax(np.abs(R - want)))
+                    out.bad(sub + "/lumped-numeric/value", "%s lumped R[%d]=%r, Gram diagonal + lambda = %r"
+                            % (tag, i, R[i], want[i]))
+                else:
+                    check_matrix(out, sub, R, G, lam, tag, tol=1e-9, clause="gram-numeric")
+            elif lump:
+                if dev > (1e-9 * scale if numeric else atol):
+                    i = int(np.argmax(np.abs(R - want)))
+                    out.bad(sub + "/lumped/value", "%s lumped R[%d]=%r, Gram diagonal + lambda = %r (tolerance %g)"
+                            % (tag, i, R[i], want[i], atol))
+                elif np.any(R <= 0):
+                    out.bad(sub + "/lumped/not-positive", "%s min %g" % (tag, np.min(R)))
+                else:
+                    G_used = R_dense - lam * np.eye(N)
+            else:
+                if check_matrix(out, sub, R, G, lam, tag, tol=(1e-9 if numeric else atol / scale),
+                                clause="gram-numeric" if numeric else "gram"):
+                    G_used = R - lam * np.eye(N)
     upper = _drop_upper(data) if boundary else np.zeros(len(data), dtype=bool)
+    bdrop = None
+    if upper.any():
+        A = ref_hatmatrix(stripes, boundary, data)
+        if classes is not None:
+            A = A * np.asarray(classes)[:, None]
+        bdrop = (A * (~upper)[:, None]).sum(axis=0) / len(data)
+        if _maxabs(bdrop - bref) <= 1e-12:
+            bdrop = None
     b_used = bref
     if B is not None:
         B = np.asarray(B, dtype=float)
-        if B.shape == bref.shape and _maxabs(B - bref) > 1e-12 and upper.any():
-            A = ref_hatmatrix(stripes, boundary, data)
-            if classes is not None:
-                A = A * np.asarray(classes)[:, None]
-            bdrop = (A * (~upper)[:, None]).sum(axis=0) / len(data)
-            if _maxabs(B - bdrop) <= 1e-12:
-                out.bad(sub + "/rhs/" + KNOWN_UPPER, "%s %d sample(s) with a coordinate == 1.0 contribute nothing: "
-                        "max|b-b_ref|=%g" % (tag, int(upper.sum()), _maxabs(B - bref)))
-                b_used = bdrop
-            else:
-                check_b(out, sub, B, bref, tag, info=info)
-        else:
-            check_b(out, sub, B, bref, tag, info=info)
+        if bdrop is not None and B.shape == bref.shape and _maxabs(B - bref) > 1e-12 and _maxabs(B - bdrop) <= 1e-12:
+            out.bad(sub + "/rhs/" + KNOWN_UPPER, "%s %d sample(s) with a coordinate == 1.0 contribute nothing: "
+                    "max|b-b_ref|=%g" % (tag, int(upper.sum()), _maxabs(B - bref)))
+            b_used = bdrop
+        elif check_b(out, sub, B, bref, tag, info=info):
+            b_used = B
     if alphas is not None:
-        if B is None and upper.any():
+        if B is None and bdrop is not None:
             # only the surpluses are observed: decide between the reference and the "samples at 1 dropped" variant
-            A = ref_hatmatrix(stripes, boundary, data)
-            if classes is not None:
-                A = A * np.asarray(classes)[:, None]
-            bdrop = (A * (~upper)[:, None]).sum(axis=0) / len(data)
             o1, o2 = Outcome(), Outcome()
             check_surpluses(o1, sub, alphas, G_used, lam, bref, w, classes is not None, lump, tag, tol=DW_TOL)
-            if o1.violations and _maxabs(bdrop - bref) > 1e-12:
+            if o1.violations:
                 check_surpluses(o2, sub, alphas, G_used, lam, bdrop, w, classes is not None, lump, tag, tol=DW_TOL)
                 if not o2.violations:
                     out.bad(sub + "/surplus/" + KNOWN_UPPER, "%s surpluses solve the system whose right-hand side lacks "
@@ -778,15 +793,28 @@ def run_sasd(case):
     sa = SpatiallyAdaptiveSingleDimensions2(a, b, operation=op, margin=case["margin"], rebalancing=case["rebalancing"],
                                             print_level=Q, log_level=Q)
     calls = []
-    orig = op.calculate_operation_dimension_wise
+    last = {}
+    orig, orig_R, orig_B = op.calculate_operation_dimension_wise, op.build_R_matrix_dimension_wise, op.calculate_B_dimension_wise
+
+    def observe_R(*a, **k):
+        last["R"] = np.array(orig_R(*a, **k), dtype=float)
+        return last["R"].copy()
+
+    def observe_B(*a, **k):
+        last["B"] = np.array(orig_B(*a, **k), dtype=float)
+        return last["B"].copy()
 
     def observer(stripes, levels, cg):
+        last.clear()
         r = orig(stripes, levels, cg)
         lv = tuple(int(x) for x in cg.levelvector)
         calls.append(([[float(x) for x in s] for s in stripes], [[int(x) for x in l] for l in levels], lv,
-                      np.array(op.surpluses[lv], dtype=float).copy()))
+                      np.array(op.surpluses[lv], dtype=float).copy(), last.get("R"), last.get("B")))
         return r
+    # instance-level observers (the library calls these through self.<name>)
     op.calculate_operation_dimension_wise = observer
+    op.build_R_matrix_dimension_wise = observe_R
+    op.calculate_B_dimension_wise = observe_B
     try:
         with silent():
             sa.performSpatiallyAdaptiv(case["lmin"], case["lmax"], Scripted(case["errors"]), -1.0,
@@ -801,13 +829,15 @@ def run_sasd(case):
             raise
     nline = 0
     nonuniform = 0
-    for k, (stripes, levels, lv, al) in enumerate(calls):
+    for k, (stripes, levels, lv, al, Robs, Bobs) in enumerate(calls):
         tag = "call %d levelvec=%s stripes=%s" % (k, lv, stripes)
         for s in stripes:
             if s[0] != 0.0 or s[-1] != 1.0 or any(s[i] >= s[i + 1] for i in range(len(s) - 1)):
                 raise AssertionError("harness: unexpected stripe %s" % s)
+        if Robs is None or Bobs is None:
+            raise AssertionError("harness: R/B observers were not called inside calculate_operation_dimension_wise")
         check_dimwise_grid(out, sub, op, stripes, levels, boundary, lam, lump, False, data, classes, info, tag,
-                           alphas=al)
+                           R=Robs, B=Bobs, alphas=al)
         nl = on_grid_line(stripes, data)
         nu = any(len(set(np.diff(s).tolist())) > 1 for s in stripes)
         nline += 1 if (nl and nu) else 0
